@@ -430,7 +430,7 @@ Fixpoint drun (g : generics) (c : conv) (u : universe) (strict : bool) (fuel : n
                 Ok (VMap kv)
             | _ => Err EParser                               (* expected object *)
             end
-          else if negb recursive && v_list_element var && (match j with JList false _ => true | _ => false end) then
+          else if negb recursive && v_list_element var && (match j with JList _ _ => true | _ => false end) then
             match j, v_factory var with
             | JList _ l, Some fa => vs <- mapM (fun x => rec (DBindValue meta var x true)) l ;; Ok (VList (factory_tuple fa) vs)
             | _, _ => Err EUnmodelled
@@ -461,7 +461,8 @@ Fixpoint drun (g : generics) (c : conv) (u : universe) (strict : bool) (fuel : n
                    | _ => false
                    end) then Err EParser                       (* null inside a tokens list *)
           else
-            s <- j_serialize c j ;;
+            (* a token tuple (in-memory dictionary of an immutable model) is read like a token list *)
+            s <- j_serialize c (match j with JList true l => JList false l | _ => j end) ;;
             parse_var c strict var s
       (* ---- bind_complex_type(meta, var, data) *)
       | DBindComplex meta var data =>
